@@ -1,5 +1,7 @@
 import OV.Lemmas.C01Scope
 import OV.Lemmas.C01SimFor
+import OV.Lemmas.C01Export
+import OV.Lemmas.C01Refs
 import OV.Lemmas.C01Total
 /-!
 # C02 — every proto the converter emits is well-formed ONNX; bad programs are refused
@@ -278,6 +280,71 @@ example :
                               .ret [.var "x"] false] } with
      | .error .translation => true
      | _ => false) = true := by
+  decide +kernel
+
+/-! ### `to_model_proto`: the body as the main graph of a model -/
+
+/-- **A function with a required attribute parameter is not exported as a model** (`ValueError`). -/
+theorem export_required_refused (ds : List (Name × Option String)) (g : Graph) (p : Name)
+    (h : (p, none) ∈ ds) : exportModel ds g = .error .value := by
+  unfold exportModel
+  have : ds.any (fun d => d.2.isNone) = true := List.any_eq_true.mpr ⟨(p, none), h, rfl⟩
+  simp [this]
+
+/-- **The main graph of an exported model refers to no attribute parameter** (C01-D41, fixed by 3382c7a): when
+every attribute parameter the body refers to is one of the function's (with a default, or the export is refused),
+the exported body has no attribute reference left at any depth, and lists no attribute parameters.  Before the fix
+the references stayed (`alpha = @alpha` in a main graph, where nothing binds them; onnxruntime used 0). -/
+theorem export_no_attr_refs (ds : List (Name × Option String)) (g g' : Graph) (h : exportModel ds g = .ok g')
+    (hrefs : ∀ p, p ∈ attrRefs g.nodes → defaultOf ds p ≠ none) :
+    attrRefs g'.nodes = [] ∧ g'.attrs = [] := by
+  obtain ⟨hall, rfl⟩ := exportModel_ok h
+  exact ⟨exportNodes_refs ds hall g.nodes hrefs, rfl⟩
+
+/-- **Every attribute reference in an emitted body is to an attribute parameter of the function** — for every
+accepted function, at every depth (keyword arguments `alpha=alpha` via `_translate_attr`, attribute parameters read
+as values via `_to_onnx_var`; `If` / `Loop` bodies included), and the function lists exactly its attribute
+parameters. -/
+theorem convert_attr_refs_are_params (f : Func) (g : Graph) (h : convert f = .ok g) :
+    g.attrs = attrParams f.params ∧ ∀ q, q ∈ attrRefs g.nodes → q ∈ attrParams f.params :=
+  convert_attr_refs h
+
+/-- **The main graph of the model exported from any accepted function refers to no attribute parameter** (C01-D41,
+unconditional form): if `ds` gives a default for every attribute parameter of `f` (otherwise the export is refused:
+`export_required_refused`), then the exported body has no attribute reference at any depth. -/
+theorem export_model_no_attr_refs (f : Func) (g g' : Graph) (ds : List (Name × Option String))
+    (hc : convert f = .ok g) (hds : ∀ p, p ∈ attrParams f.params → defaultOf ds p ≠ none)
+    (h : exportModel ds g = .ok g') : attrRefs g'.nodes = [] ∧ g'.attrs = [] :=
+  export_no_attr_refs ds g g' h (fun p hp => hds p ((convert_attr_refs hc).2 p hp))
+
+/-- **Exporting keeps the body well-formed**: together with `convert_wf`, the main graph of `to_model_proto()` of
+every accepted function passes `wfGraph`. -/
+theorem export_wf (f : Func) (g g' : Graph) (ds : List (Name × Option String))
+    (hnames : (f.params.map Param.name).Nodup) (hc : convert f = .ok g) (h : exportModel ds g = .ok g') :
+    wfGraph g' = true :=
+  exportModel_wf h (convert_wf f g hc hnames)
+
+def leakyDemo : Func :=
+  { name := "f", params := [Param.tensor "A", Param.attr "alpha" AttrTy.float], retCount := none,
+    body := [.ret [.call "" "LeakyRelu" { known := false, variadic := false, homog := false, tvs := [] }
+      [.var "A"] [("alpha", .ref "alpha")]] false] }
+
+/-- Non-vacuity / regression witness of C01-D41: `def f(A, alpha: float = 0.5): return LeakyRelu(A, alpha=alpha)`
+— the function body refers to `@alpha`, the exported main graph carries `0.5`; without a default it is refused. -/
+example :
+    (match convert leakyDemo with
+     | .ok g =>
+       attrRefs g.nodes == ["alpha"] &&
+       (match exportModel [("alpha", some "f:0.5")] g with
+        | .ok g' => attrRefs g'.nodes == [] && wfGraph g' &&
+            (match g'.nodes with
+             | [.op _ "LeakyRelu" _ _ [("alpha", .const r)]] => r == "f:0.5"
+             | _ => false)
+        | .error _ => false) &&
+       (match exportModel [("alpha", none)] g with
+        | .error .value => true
+        | _ => false)
+     | .error _ => false) = true := by
   decide +kernel
 
 /-- Finding D19 (fixed by 9fe7eb1), the decision in isolation: `_translate_function_signature_common` used to add a
